@@ -621,8 +621,8 @@ def known_match(case: dict, detail: Any) -> Optional[str]:
             return 'C05-F4'
         if cname in COLLAPSING and detail.get('diff') and 'cdata-in-run' in doc_shapes(case):
             return 'C05-F6'
-        if cname == 'default' and detail.get('error') == 'validation' and (
-                'list-run' in doc_shapes(case) or (opts.get('force_list') and 'list-elem' in doc_shapes(case))):
+        if cname == 'default' and detail.get('error') == 'validation' and 'list-elem' in doc_shapes(case) and \
+                'is not an instance of' in str(detail.get('msg', '')):
             return 'C05-F7'
     if 'mutation' in case and cname in ('badgerfish', 'gdata') and isinstance(detail, dict) and \
             'unbound prefix' in str(detail.get('xml2', '')) and case['mutation'].get('kind') == 'rename' and \
@@ -853,7 +853,8 @@ def compare_model(ctx: Ctx, drv: Driver, u: Unit, cname: str, opts: dict, res: d
             continue
         for ent in enclog:
             if ent[0] in ('enc', 'encerr') and cname == 'jsonml' and isinstance(ent[1], MutableSequence) and any(
-                    isinstance(e, MutableSequence) and len(e) and not isinstance(e[0], (str, MutableMapping)) for e in ent[1]):
+                    isinstance(e, MutableSequence) and len(e) and not isinstance(e[0], str) and
+                    not (use_ns and isinstance(e[0], MutableMapping)) for e in ent[1]):
                 ctx.count('model:skipped(non-string name)')
                 continue
             if ent[0] == 'enc':
